@@ -16,3 +16,29 @@ package dag
 //@   ensures  fresh(result) && be32at(result.id, 0) == me.epoch && be32at(result.id, 4) == me.lamport
 //@   ensures  forall(i, 0, 24, result.id[8+i] == rID[i])
 //@   ensures  result.epoch == me.epoch && result.seq == me.seq && result.frame == me.frame && result.creator == me.creator && result.lamport == me.lamport && result.parents == me.parents
+//@
+//@ // dag.Event is immutable: its accessors are pure functions of the event value.
+//@ iface Event.Epoch
+//@   pure
+//@ iface Event.Seq
+//@   pure
+//@ iface Event.Frame
+//@   pure
+//@ iface Event.Creator
+//@   pure
+//@ iface Event.Lamport
+//@   pure
+//@ iface Event.Parents
+//@   pure
+//@ iface Event.ID
+//@   pure
+//@ iface Event.SelfParent
+//@   pure
+//@ iface Event.IsSelfParent
+//@   pure
+//@ iface Event.Size
+//@   pure
+//@
+//@ // Meaning of SelfParent / IsSelfParent in terms of Seq and Parents (what BaseEvent implements);
+//@ // assumed of the application's event type where a contract says spsem(e).
+//@ spec spsem(e Event) bool = ((e.SelfParent() == nil) == (e.Seq() <= 1 || len(e.Parents()) == 0)) && forall(h hash.Event, e.IsSelfParent(h) == (e.SelfParent() != nil && e.Parents()[0] == h))
